@@ -835,7 +835,7 @@ func TestC07(t *testing.T) {
 		if rapid.IntRange(0, 9).Draw(rt, "dottedAbsentName") == 4 {
 			c.Absent = append(c.Absent, rapid.SampledFrom([]string{"m.k", "m.x", "deep.k"}).Draw(rt, "dottedAbsent"))
 		}
-		u := c.Update(rt, gen.UpdateCfg{MaxActions: 4, IllTyped: 8})
+		u := c.Update(rt, gen.UpdateCfg{MaxActions: 4, IllTyped: 8, ListSiblings: true})
 		ec := exprCase{Expr: gen.Decorate(rt, model.RenderUpdate(u)), Item: it, Absent: absent, Names: c.Names, Values: c.Values,
 			API: rapid.IntRange(0, 9).Draw(rt, "api") == 0}
 		ec.Names, ec.Values = pruneUnused(ec.Names, ec.Values, ec.Expr)
